@@ -179,7 +179,7 @@ def nondet_values(trace):
         if s.get('stepType') != 'assignment' or s.get('hidden'):
             continue
         lhs = s.get('lhs', '')
-        m = re.match(r'return_value_nondet_(\w+?)(\$\d+)?$', lhs)
+        m = re.match(r'return_value_nondet_(\w+?)(\$\d+)?$', lhs) or re.match(r'nd_log_(\w+)$', lhs)
         if not m:
             continue
         v = s.get('value', {})
@@ -292,6 +292,8 @@ class Runner(object):
         if isinstance(err, dict):
             res.tv_ok = err.get('tv_ok')
             res.tv_vectors = err.get('tv_vectors', 0)
+            if err.get('tv_msg'):
+                res.extra['translator_validation_note'] = err.get('tv_msg')[:400]
             if res.tv_ok is False:
                 res.reason = 'translator validation disagreed: ' + err.get('tv_msg', '')
                 return
